@@ -37,6 +37,8 @@ def shards(tier, seed, quick_grids=1500, thorough_grids=60000, cat_quick='full')
     out.append({'part': 'threads', 'threads': 2, 'bound': 1 if tier == 'quick' else 2, 'cap': 700 if tier == 'quick' else 20000, 'pick': 0})
     out.append({'part': 'threads', 'threads': 2, 'bound': 1 if tier == 'quick' else 2, 'cap': 700 if tier == 'quick' else 20000, 'pick': 1})
     out.append({'part': 'threads', 'threads': 3, 'bound': 1, 'cap': 700 if tier == 'quick' else 20000, 'pick': 2})
+    # the very first zone lookups of a process, from six threads at once (the zone tables are built lazily)
+    out.append({'part': 'cold-start', 'rounds': 10 if tier == 'quick' else 100})
     out.append({'part': 'threads', 'threads': 2, 'scalars': True, 'bound': 2, 'cap': 400 if tier == 'quick' else 6000})
     return out
 
@@ -365,8 +367,27 @@ def _cut(a, b):
     return a[max(0, i - 40):i + 60]
 
 
+def cold_start_part(mod, spec, ctx):
+    import pytz
+    from vf.props import c17
+
+    def work(Z, tz, t):
+        loc = pytz.utc.localize(t).astimezone(tz)
+        n = ('dt', (loc.year, loc.month, loc.day, loc.hour, loc.minute, loc.second, loc.microsecond),
+             int(loc.utcoffset().total_seconds()), Z)
+        g = ('grid', '3.0', (('when', n),), (('ts', ()),), ((('ts', n),),))
+        out = []
+        for judge, arg in ((mod.judge_scalar, (n, '3.0')), (mod.judge_grid, (g,))):
+            sym, detail, art = judge(*arg)
+            out.append((sym, '%s | text %r' % (detail, (art.get('text') or '')[:160])) if sym else None)
+        return out
+    c17.cold_start(spec, ctx, work, {'part': 'cold-start', 'format': mod.FMT, 'position': 'cell', 'kind': 'dt'})
+
+
 def run_shard(mod, spec, ctx):
     part = spec['part']
+    if part == 'cold-start':
+        return cold_start_part(mod, spec, ctx)
     if part == 'threads':
         return threads_part(mod, spec, ctx)
     if part == 'scalars':
@@ -638,6 +659,8 @@ def run_shard(mod, spec, ctx):
 
 def replay(mod, case, ctx):
     t = case.get('type')
+    if case.get('cold_start'):
+        return cold_start_part(mod, {'part': 'cold-start', 'rounds': 30}, ctx)
     if t == 'threads' and 'pair' in case:
         from vf import threads as T
         a, b = [D.dec(x) for x in case['pair']]
